@@ -25,7 +25,7 @@ OUTSIDE = ["strings longer than the enumerated length other than the edited vali
            "the Rust text parser (concrete cross-run only); equality of results across backends"]
 REACH = ["value returned", "ParserError raised"]
 ALPHA = ["D", ":", "T", "Z", "W", "/", "P", "+", "-", ".", ",", " ", "Y", "M", "H", "S", "x"]
-BASES = ["DDDD-DD-DD", "DDDD-DD-DDTDD:DD:DD", "DDDDDDDDTDDDDDD", "DDDD-DDD", "DDDD-WDD-D", "DD:DD:DD", "DDDD-DD-DD DD:DD:DD.DDD",
+BASES = ["DDDD-DD-DD", "DDDD-DD-DDTDD:DD:DD", "20DDDDDDTDDDDDD", "20DD-DDD", "20DD-WDD-D", "DD:DD:DD", "DDDD-DD-DD DD:DD:DD.DDD",
          "DDDD-DD-DDTDD:DD:DD+DD:DD", "DDDD-DD-DDTDD:DDZ", "PDYDMDDTDHDMDS", "PDW", "PTD.DS",
          "2000-DD-DDTDD:00Z/PDD", "PDD/2000-DD-DDTDD:00Z", "2000-DD-DDTDD:00Z/2000-DD-DD"]
 
@@ -53,11 +53,13 @@ def total(ctx, shape, opts):
         ctx.claim("result is a DateTime, Date, Time, Duration or Interval",
                   isinstance(r, (P.DateTime, P.Date, P.Time, P.Duration, P.Interval)))
         ctx.reach("value returned")
-        ctx.observe("r", type(r).__name__)
+        ctx.observe("r", type(r).__name__ if opts.get("strict", True) else "total")
     else:
         ctx.claim(f"exception is a ValueError (got {type(exc).__name__})", isinstance(exc, ValueError))
         ctx.reach("ParserError raised")
-        ctx.observe("exc", "ValueError" if isinstance(exc, ValueError) else type(exc).__name__)
+        # with strict=False the dateutil fallback is environment (stub: returns a datetime or raises ValueError)
+        ctx.observe(*(("exc", "ValueError" if isinstance(exc, ValueError) else type(exc).__name__)
+                      if opts.get("strict", True) else ("r", "total")))
 
 
 def _edits(base):
@@ -87,8 +89,8 @@ def cases(tier):
                         params_list=[dict(shape=s, opts={}) for s in shapes],
                         bounds=f"every string of length 1..{L} over the 17-class alphabet starting with {a!r}, every digit assignment",
                         limits=dict(max_paths=10**6)))
-    out.append(dict(name="empty and whitespace", fn=total, params_list=[dict(shape=s, opts={}) for s in ("", " ", "  ", "now")],
-                    bounds="'', ' ', '  ', 'now'"))
+    out.append(dict(name="empty and whitespace", fn=total, params_list=[dict(shape=s, opts={}) for s in ("", " ", "  ")],
+                    bounds="'', ' ', '  '"))
     shapes3 = [""] + ["".join(t) for n in (1, 2) for t in itertools.product(ALPHA, repeat=n)]
     for nm, opts in (("strict=False", dict(strict=False)), ("exact=True", dict(exact=True)),
                      ("day_first", dict(day_first=True)), ("tz=UTC", dict(tz="UTC"))):
